@@ -218,6 +218,9 @@ def special_cases(rng):
     out.append(("recv_get", bigname, "70000-name"))
     out.append(("await100", bigname, "70000-name"))
     out.append(("recv_get", b"HTTP/1.1 200 OK\r\nX: " + b"v" * 6000 + b"\r\n\r\n", "6000-value"))   # (the model's value scanner is quadratic)
+    for cl in [b"18446744073709551615", b"18446744073709551616", b"99999999999999999999999999", b"184467440737095516150", b"00000000000000000000000000005"]:
+        for st in (200, 302):
+            out.append(("recv_get", b"HTTP/1.1 %d OK\r\nContent-Length: " % st + cl + b"\r\nLocation: /x\r\n\r\nhello", "oversize content-length"))
     out.append(("body_chunked", b"F" * 17 + b"\r\nabc", "hex-overflow"))
     out.append(("body_chunked", b"f" * 16 + b"\r\nabc", "hex-max"))
     out.append(("body_chunked", b"5" + b" " * 30 + b"\r\nhello\r\n0\r\n\r\n", "long-size-line"))
